@@ -60,6 +60,13 @@ Replace1(seg, tab) == IF \E k \in 1..Len(tab) : tab[k][1] = seg
 NewWithReplace(ident, modpath, tab) ==
   LET segs == Split(modpath) \o <<ident>> IN FromSegments([i \in 1..Len(segs) |-> Replace1(segs[i], tab)])
 
+\* C18 does not say HOW replacement tables are applied (C09 does: the first matching entry, once).  A table is
+\* chain-free when no entry's replacement text is a later entry's search text; only then do all reasonable
+\* application orders agree, and only then is the exact result part of C18's acceptor.
+ChainFree(tab) == \A i, j \in 1..Len(tab) : i < j => tab[i][2] # tab[j][1]
+\* what C18 itself demands of a successful construction, whatever the table semantics
+ValidPath(segs, n) == Len(segs) = n /\ \A i \in 1..Len(segs) : IsIdent(segs[i])
+
 (* accessors of a constructed path *)
 Ident(segs) == IF segs = <<>> THEN <<>> ELSE <<segs[Len(segs)]>>          \* Option
 Namespace(segs) == IF segs = <<>> THEN <<>> ELSE SubSeq(segs, 1, Len(segs) - 1)
